@@ -8,15 +8,19 @@
      c04_e2e_get / c04_e2e_gets      return the deserialised item the server holds under the prefixed key (or the default),
      c04_e2e_get_many                returns, for any number of keys with pairwise different wire keys, each live item
                                      under the caller's own key and nothing else,
-     c04_e2e_set_then_get            set followed by get returns the value stored (native values with a serializer; the
-                                     stored bytes without one), whatever bytes it contains, and leaves nothing unread,
+     c04_e2e_set_then_get            set followed by get returns the value stored (the stored bytes without a serializer),
+                                     whatever bytes it contains, and leaves nothing unread; with PickleSerde or CompressedSerde
+                                     for every value that the serializer round-trips (c04_roundtrips_native: every bytes/str/int
+                                     without any assumption; c04_e2e_set_then_get_any: ANY value comes back as itself provided
+                                     pickle round-trips that value and the codec round-trips: the oracle hypotheses of C15),
      c04_e2e_set_keeps_other         a set of one key does not change what a get of another key returns,
      c04_server_invariant            (the side condition swf of the above holds in every reachable server state).
-   PARTIAL: pickled (non-native) values go through the pickle oracle and are covered by C15's theorems plus the
-   differential run of this check; calls that must reconnect first and non-default flags are checked, not proved. *)
+   pickle and the compression codec are oracles (fields of the configuration the model never looks into; C15 states what is
+   assumed of them); calls that must connect first are C01's c01_ready theorems; a caller-supplied flags argument
+   replaces the serializer's flags and is outside the property. *)
 From Coq Require Import ZArith List Bool.
 From PM Require Import Lib.Py Spec.LegalKey Model.Lits Spec.Proto Spec.Server Spec.Reply Proofs.C04Proof
-                       Model.World Model.Client Proofs.Hoare Proofs.C02Proof Proofs.Quiet Proofs.E2E Proofs.E2EFetch Gen.Handlers.
+                       Model.World Model.Client Proofs.Hoare Proofs.C02Proof Proofs.Quiet Proofs.E2E Proofs.E2EFetch Proofs.C15Proof Gen.Handlers.
 Import ListNotations.
 Open Scope Z_scope.
 
@@ -81,13 +85,40 @@ Theorem c04_e2e_set_then_get : forall c, c_ignore_exc c = false -> h_fetch c = B
   forall sid s key value expire n bytes default x,
   let nr := eff_noreply c n in
   store_bytes c (verb_name 0) [(key, value)] expire nr DNone None = Ok bytes -> in_i64 expire ->
-  (c_serde c =? 0) = true \/ native value -> swf s ->
+  roundtrips c value -> swf s ->
   (forall e, int_value expire = Some e -> abs_exp (s_now s) e = Some x /\ (x = 0 \/ s_now s < x)) ->
   exists db,
   hoare (St sstate sid s []) (mbind (run_op sstate serve c (OpStore 0 key value expire n DNone)) (fun _ => run_op sstate serve c (OpGet key default)))
         (fun v w => v = comes_back c value db /\ exists s', St sstate sid s' [] w) (fun _ _ => False).
 Proof. exact E2EFetch.set_then_get_e2e. Qed.
 Print Assumptions c04_e2e_set_then_get.
+(* bytes, str and int values need no assumption on the oracles (PickleSerde) ... *)
+Theorem c04_roundtrips_native : forall c value, native value -> c_serde c <> 2 -> roundtrips c value.
+Proof. intros c value Hn H2. apply native_roundtrips; [exact Hn|]. destruct (Z.eqb_spec (c_serde c) 2); [contradiction|reflexivity]. Qed.
+Print Assumptions c04_roundtrips_native.
+(* ... and ANY value comes back as itself (same constructor = same type) with PickleSerde or CompressedSerde, provided pickle
+   round-trips that value (asked only of values that are pickled at all) and, with CompressedSerde, the codec round-trips *)
+Theorem c04_e2e_set_then_get_any : forall c, c_ignore_exc c = false -> h_fetch c = BaseException ->
+  (forall e, exn_isa e Exception_ = true -> exn_isa e (h_store c) = true) ->
+  c_serde c = 1 \/ c_serde c = 2 ->
+  forall sid s key value expire n bytes default x,
+  let o := c_orc c in let nr := eff_noreply c n in
+  store_bytes c (verb_name 0) [(key, value)] expire nr DNone None = Ok bytes -> in_i64 expire ->
+  (pickled value = true -> o_loads o (o_dumps o (o_pickle_version o) value) = Ok value) ->
+  (c_serde c = 2 -> forall b, o_decompress o (o_compress o b) = Ok b) -> swf s ->
+  (forall e, int_value expire = Some e -> abs_exp (s_now s) e = Some x /\ (x = 0 \/ s_now s < x)) ->
+  hoare (St sstate sid s []) (mbind (run_op sstate serve c (OpStore 0 key value expire n DNone)) (fun _ => run_op sstate serve c (OpGet key default)))
+        (fun v w => v = value /\ exists s', St sstate sid s' [] w) (fun _ _ => False).
+Proof.
+  intros c Hi Hf Hst Hsd sid s key value expire n bytes default x. cbn zeta. intros Hb He Hp Hc Hs Hx.
+  assert (Hr : roundtrips c value).
+  { right. split; [exact Hp|]. intros E2. apply Hc. apply Z.eqb_eq, E2. }
+  destruct (E2EFetch.set_then_get_e2e c Hi Hf Hst sid s key value expire n bytes default x Hb He Hr Hs Hx) as (db & H).
+  eapply h_conseq; [exact H|auto| |auto].
+  intros v w [Hv Hw]. split; [|exact Hw]. rewrite Hv. unfold comes_back.
+  destruct (Z.eqb_spec (c_serde c) 0) as [E0|_]; [destruct Hsd as [X|X]; rewrite E0 in X; discriminate|reflexivity].
+Qed.
+Print Assumptions c04_e2e_set_then_get_any.
 Theorem c04_e2e_set_keeps_other : forall c, c_ignore_exc c = false -> h_fetch c = BaseException ->
   (forall e, exn_isa e Exception_ = true -> exn_isa e (h_store c) = true) ->
   forall sid s key value expire n bytes key2 k2 default,
@@ -106,7 +137,7 @@ Proof. split; reflexivity. Qed.
 (* non-vacuity: the premises are met by a concrete connected client (prefix "p:", PickleSerde, 3-byte recv chunks) and the
    model, run on it, stores and fetches a value full of protocol text under two keys *)
 Definition ex_cfg : cfg := {| c_tcp := false; c_naddr := 1; c_nodelay := false; c_tls := false; c_keepalive := false; c_ignore_exc := false;
-  c_prefix := [112; 58]; c_default_noreply := true; c_unicode := false; c_enc := EncAscii; c_serde := 1;
+  c_prefix := [112; 58]; c_default_noreply := true; c_unicode := false; c_enc := EncAscii; c_serde := 1; c_orc := no_oracles 0;
   h_fetch := src_h_fetch; h_store := src_h_store; h_misc := src_h_misc |}.
 Definition ex_world : world sstate := {| w_script := []; w_choices := [CChunk 3; CChunk 1; CChunk 4096]; w_peer := empty_server 100; w_conns := [(1, [])];
   w_buf := []; w_discarded := []; w_bad := false; w_trace := []; w_next := 2; w_sock := Some 1 |}.
@@ -120,4 +151,28 @@ Example c04_e2e_ex :
 Proof.
   cbn zeta. split; [split; [reflexivity|split; [reflexivity|intros e _; destruct e; reflexivity]]|].
   split; [unfold St; cbn; repeat split; repeat constructor|]. vm_compute. repeat split; reflexivity.
+Qed.
+
+(* non-vacuity of c04_e2e_set_then_get_any: CompressedSerde (threshold 1) over a toy pickle that knows None, the booleans and the
+   list [1, 2], with list reversal as the codec: the oracle premises hold, the list is pickled, "compressed" (flags 1|8, reversed
+   bytes on the server) and comes back as the same list *)
+Definition toy_oracles : oracles :=
+  {| o_dumps := fun _ v => match v with DNone => [78] | DBool true => [84] | DBool false => [70] | DList [DInt 1; DInt 2] => [91; 49; 44; 50; 93] | _ => [63] end;
+     o_loads := fun b => match b with [78] => Ok DNone | [84] => Ok (DBool true) | [70] => Ok (DBool false)
+                                 | [91; 49; 44; 50; 93] => Ok (DList [DInt 1; DInt 2]) | _ => Raise ValueError end;
+     o_compress := @rev Z; o_decompress := fun b => Ok (rev b); o_pickle_version := 5; o_min_compress_len := 1 |}.
+Definition ex_cfg2 : cfg := {| c_tcp := false; c_naddr := 1; c_nodelay := false; c_tls := false; c_keepalive := false; c_ignore_exc := false;
+  c_prefix := [112; 58]; c_default_noreply := true; c_unicode := false; c_enc := EncAscii; c_serde := 2; c_orc := toy_oracles;
+  h_fetch := src_h_fetch; h_store := src_h_store; h_misc := src_h_misc |}.
+Example c04_e2e_any_ex :
+  let value := DList [DInt 1; DInt 2] in
+  quiet_cfg ex_cfg2 /\ pickled value = true /\
+  o_loads toy_oracles (o_dumps toy_oracles 5 value) = Ok value /\ (forall b, o_decompress toy_oracles (o_compress toy_oracles b) = Ok b) /\
+  let '(r, w) := mbind (run_op sstate serve ex_cfg2 (OpStore 0 (DStr [107]) value (DInt 0) DNone DNone))
+                       (fun _ => run_op sstate serve ex_cfg2 (OpGet (DStr [107]) DNone)) ex_world in
+  r = Ok value /\ live (w_peer w) [112; 58; 107] = Some {| i_flags := 9; i_exp := 0; i_data := [93; 50; 44; 49; 91]; i_cas := 1 |} /\ w_buf w = [].
+Proof.
+  cbn zeta. split; [split; [reflexivity|split; [reflexivity|intros e _; destruct e; reflexivity]]|].
+  split; [reflexivity|]. split; [reflexivity|]. split; [intros b; cbn; rewrite rev_involutive; reflexivity|].
+  vm_compute. repeat split; reflexivity.
 Qed.
